@@ -59,6 +59,13 @@ def witnesses(tier, seed):
     extra += [(6, 6, 6 + 0 * k) for k in ()] + [(9, 9, 10), (9, 9, 12), (6, 7, 20), (10, 10, 24), (9, 12, 40), (13, 8, 48)]
     if tier != 'quick':
         extra += [(M, K, N) for M in (13, 14) for K in (13, 14) for N in (13, 14, 15, 16, 17)] + [(24, 24, 24), (25, 25, 33), (33, 9, 8)]
+    # the three-vector-wide interior block (numSIMDCols == 3) is chosen only when M and N are multiples of 3 widths and N > 24; the k range
+    # of a triangular operand must extend beyond two widths for the third vector column to matter: one shape per SIMD width
+    for V in (2, 4, 8, 16):
+        n3 = 3 * V
+        while n3 <= 24:
+            n3 += 3 * V
+        extra.append((3 * V, n3, n3))
     for (M, K, N) in extra:
         for lt in TAGS:
             for rt in TAGS:
